@@ -3,6 +3,8 @@ package checks
 import (
 	"fmt"
 
+	"github.com/AsaiYusuke/jsonpath"
+
 	"verif/internal/gen"
 	"verif/internal/harness"
 	"verif/internal/lib"
@@ -42,7 +44,7 @@ func init() {
 		Rule: "case = one (path, document): systematic step-kind sequences (<=2 / <=3 kinds, with filter-function suffixes) x battery documents, then random ASTs on " +
 			"path-directed documents; for EVERY split point k (not between `..` and its operand; Q without $-rooted operand or aggregate) three real retrievals are " +
 			"compared: Retrieve(P·Q, doc) must equal the concatenation in order of Retrieve($·Q, v) for v in Retrieve(P, doc), and fail exactly when that concatenation " +
-			"is empty; no reference model involved; non-trivial = the concatenation is non-empty and P selects >= 1 value with at least one step on each side; " +
+			"is empty; additionally, at every split whose next step is a multi-name selector, a union or `..`, on every value P selects: the selector equals the concatenation of its single selectors in written order, and `..X` equals X applied to every container in pre-order (containers enumerated by the harness); no reference model involved; non-trivial = the concatenation is non-empty and P selects >= 1 value with at least one step on each side; " +
 			"distinct = distinct (path, split, document)",
 		Assumptions: []string{"values selected by P are passed to the second retrieval as they are (shared sub-documents, not copies)"},
 		Plan: func(tier string, seed int64) *harness.Plan {
@@ -76,7 +78,7 @@ func init() {
 					runC08(c, p, doc, k%2 == 1)
 				},
 				Finish:   reportHooks,
-				Required: []string{"split:rec+multi|name", "split:rec+name|filter", "split:multi|name", "split:union|filter", "relation:nonempty", "relation:empty"},
+				Required: []string{"split:rec+multi|name", "split:rec+name|filter", "split:multi|name", "split:union|filter", "relation:nonempty", "relation:empty", "decompose:multi", "decompose:union", "decompose:rec"},
 			}
 		},
 	})
@@ -150,6 +152,125 @@ func runC08(c *harness.Ctx, p *spec.Path, doc string, useNum bool) {
 			c.Violation("fails-but-parts-select "+key, "P·Q fails although Q applied to the values P selects yields results", det)
 		case full.Err == nil && !lib.SameList(full.Res, cat):
 			c.Violation("differs "+key, "P·Q differs from the concatenation of Q applied to each value P selects", det)
+		}
+		// the two "in particular" clauses of the property, checked on every value v that P selects:
+		// a union / multi-name selector equals the concatenation of its single selectors, and
+		// `..X` equals X applied to every container below v in pre-order
+		if k < len(p.Steps) && pres.Panic == nil {
+			decompose(c, p, k, pres.Res, cfg, doc)
+		}
+	}
+}
+
+// containersPreOrder lists v and every container below it in pre-order (object members in key order).
+func containersPreOrder(v interface{}, out *[]interface{}) {
+	switch t := v.(type) {
+	case map[string]interface{}:
+		*out = append(*out, v)
+		for _, k := range sortedKeysOf(t) {
+			containersPreOrder(t[k], out)
+		}
+	case []interface{}:
+		*out = append(*out, v)
+		for _, x := range t {
+			containersPreOrder(x, out)
+		}
+	}
+}
+
+func decompose(c *harness.Ctx, p *spec.Path, k int, parents []interface{}, cfg jsonpath.Config, doc string) {
+	st := &p.Steps[k]
+	rest := func(from int) *spec.Path { return &spec.Path{Root: '$', Steps: p.Steps[from:], Funcs: p.Funcs} }
+	var singles []spec.Step
+	what := ""
+	switch {
+	case st.Kind == spec.KMulti:
+		what = "multi-name selector = concatenation of its single selectors"
+		for _, it := range st.Items {
+			if it.Wild {
+				singles = append(singles, spec.Step{Kind: spec.KWild, Bracket: true})
+			} else {
+				singles = append(singles, spec.Step{Kind: spec.KName, Key: it.Key, Bracket: true})
+			}
+		}
+	case st.Kind == spec.KUnion && len(st.Subs) > 1:
+		what = "union = concatenation of its single subscripts"
+		for _, su := range st.Subs {
+			singles = append(singles, gen.NormalizeUnion([]spec.Sub{su}))
+		}
+	case st.Kind == spec.KRec:
+		what = "`..X` = X applied to every container in pre-order"
+	default:
+		return
+	}
+	if hasRootOrAggr(rest(k)) {
+		return
+	}
+	wholeText := rest(k).Text()
+	for _, v := range parents {
+		whole := lib.Retrieve(wholeText, v, cfg)
+		var cat []interface{}
+		var parts []string
+		bad := whole.Panic != nil
+		if st.Kind == spec.KRec {
+			inner := rest(k + 1)
+			innerText := inner.Text()
+			var conts []interface{}
+			containersPreOrder(v, &conts)
+			for _, ct := range conts {
+				_, isMap := ct.(map[string]interface{})
+				switch p.Steps[k+1].Kind {
+				case spec.KName:
+					if !isMap {
+						continue
+					}
+				case spec.KUnion:
+					if isMap {
+						continue
+					}
+				}
+				o := lib.Retrieve(innerText, ct, cfg)
+				bad = bad || o.Panic != nil
+				cat = append(cat, o.Res...)
+			}
+			parts = append(parts, innerText+" on each of the "+fmt.Sprint(len(conts))+" containers")
+			if _, isCont := v.(map[string]interface{}); !isCont {
+				if _, isList := v.([]interface{}); !isList {
+					continue // `..` on a scalar is a type error, nothing to decompose
+				}
+			}
+		} else {
+			for _, sg := range singles {
+				q := &spec.Path{Root: '$', Steps: append([]spec.Step{sg}, p.Steps[k+1:]...), Funcs: p.Funcs}
+				t := q.Text()
+				parts = append(parts, t)
+				o := lib.Retrieve(t, v, cfg)
+				bad = bad || o.Panic != nil
+				cat = append(cat, o.Res...)
+			}
+			if _, isList := v.([]interface{}); st.Kind == spec.KUnion && !isList {
+				continue // a union applies to arrays only (its `*` subscript is not the wildcard selector)
+			}
+			if st.Kind == spec.KMulti {
+				allWild := true
+				for _, it := range st.Items {
+					allWild = allWild && it.Wild
+				}
+				if _, isList := v.([]interface{}); isList && !allWild {
+					continue // a multi-name selector with a name applies to objects only
+				}
+			}
+		}
+		c.Cover("decompose:" + st.Kind.String())
+		key := fmt.Sprintf("decompose %s on %s", wholeText, lib.JS(v))
+		det := map[string]interface{}{"relation": what, "path": wholeText, "value": lib.JS(v), "document": doc, "whole": whole.String(), "parts": parts, "concatenation": lib.JS(cat)}
+		switch {
+		case bad:
+			c.Violation("panic "+key, "a retrieval of the relation panicked", det)
+		case whole.Err != nil && len(cat) > 0:
+			c.Violation("fails-but-parts-select "+key, "the selector fails although its single selectors select values: "+what, det)
+		case whole.Err == nil && !lib.SameList(whole.Res, cat):
+			c.Violation("differs "+key, "violated: "+what, det)
 		}
 	}
 }
